@@ -101,7 +101,14 @@ def roundtrip_check(cfg, through_text: bool, what: str):
     ser = cfg.serialize()
     if through_text:
         ser = json.loads(json.dumps(ser))
+    ser_text = json.dumps(ser, sort_keys=True, default=str)
     loaded = MazeDatasetConfig.load(ser)
+    # a saved form may be loaded more than once: loading must not consume or alter it
+    again = MazeDatasetConfig.load(ser)
+    if json.dumps(ser, sort_keys=True, default=str) != ser_text:
+        raise core.Violation("C18.roundtrip-equal", f"{what}: load() altered the serialised form it was given")
+    if json.dumps(again.serialize(), default=str) != json.dumps(loaded.serialize(), default=str):
+        raise core.Violation("C18.roundtrip-equal", f"{what}: loading the same serialised form twice gives two different configurations")
     problems = []
     if loaded.maze_ctor is not cfg.maze_ctor:
         problems.append("maze_ctor is not the same generator function")
